@@ -280,3 +280,108 @@ Theorem C16_daemon_writer_would_lose_backlog :
   /\ lc_daemon lconf_report_dir = false /\ lc_daemon lconf_report_path = false.
 Proof. exact daemon_writer_loses_backlog. Qed.
 Print Assumptions C16_daemon_writer_would_lose_backlog.
+
+(* ---- Part 6: the handlers over WHOLE ScenarioFinished events (after seeded regression C16_d) ---- *)
+(* C16_each_interaction_once generalised: for every history of events with ANY phase, event label (or none),
+   status, skip_reason, is_final and recorder, the file holds the interactions of every delivered recorder *)
+Theorem C16_each_interaction_once_all_events_har : forall sanitize preserve h,
+  written_ev {| w_fmt := HAR; w_sanitize := sanitize; w_preserve := preserve |} h = (complete (delivered_ev h), Closed).
+Proof. exact once_all_events_har. Qed.
+Print Assumptions C16_each_interaction_once_all_events_har.
+
+Theorem C16_each_interaction_once_all_events_partial : forall sanitize preserve h, no_raising_codec_ev h = true ->
+  written_ev {| w_fmt := VCR; w_sanitize := sanitize; w_preserve := preserve |} h = (complete (delivered_ev h), Closed).
+Proof. exact once_all_events_vcr. Qed.
+Print Assumptions C16_each_interaction_once_all_events_partial.
+
+(* the same read as a count: case ids unique in the run, then the id of every interaction of every delivered
+   recorder occurs exactly once in the file, as a complete entry *)
+Theorem C16_every_delivered_interaction_counted_once_har : forall sanitize preserve h e i,
+  NoDup (delivered_ev h) -> In (FScenario e) h -> In i (sf_inters e) ->
+  count_occ N.eq_dec (map fst (fst (written_ev {| w_fmt := HAR; w_sanitize := sanitize; w_preserve := preserve |} h))) (i_id i) = 1%nat
+  /\ In (i_id i, true) (fst (written_ev {| w_fmt := HAR; w_sanitize := sanitize; w_preserve := preserve |} h)).
+Proof. exact each_interaction_counted_once_har. Qed.
+Print Assumptions C16_every_delivered_interaction_counted_once_har.
+
+Theorem C16_every_delivered_interaction_counted_once_partial : forall sanitize preserve h e i, no_raising_codec_ev h = true ->
+  NoDup (delivered_ev h) -> In (FScenario e) h -> In i (sf_inters e) ->
+  count_occ N.eq_dec (map fst (fst (written_ev {| w_fmt := VCR; w_sanitize := sanitize; w_preserve := preserve |} h))) (i_id i) = 1%nat
+  /\ In (i_id i, true) (fst (written_ev {| w_fmt := VCR; w_sanitize := sanitize; w_preserve := preserve |} h)).
+Proof. exact each_interaction_counted_once_vcr. Qed.
+Print Assumptions C16_every_delivered_interaction_counted_once_partial.
+
+(* ANY rule by which handle_event might pass over some ScenarioFinished events is right exactly when the events it
+   passes over carry no interaction *)
+Theorem C16_forward_rule_complete_iff_har : forall fwd sanitize preserve h,
+  written_ev_gen fwd {| w_fmt := HAR; w_sanitize := sanitize; w_preserve := preserve |} h = (complete (delivered_ev h), Closed)
+  <-> lost_by fwd h = [].
+Proof. exact rule_complete_iff_har. Qed.
+Print Assumptions C16_forward_rule_complete_iff_har.
+
+Theorem C16_forward_rule_complete_iff_partial : forall fwd sanitize preserve h, no_raising_codec_ev h = true ->
+  (written_ev_gen fwd {| w_fmt := VCR; w_sanitize := sanitize; w_preserve := preserve |} h = (complete (delivered_ev h), Closed)
+   <-> lost_by fwd h = []).
+Proof. exact rule_complete_iff_vcr. Qed.
+Print Assumptions C16_forward_rule_complete_iff_partial.
+
+(* sentinel (seeded C16_d): the rule that skips final scenarios silently loses the final replay of a failing stateful
+   sequence; the code as it is (forward_all) writes all five exchanges *)
+Theorem C16_skip_final_rule_refuted : exists w h e i,
+  In (FScenario e) h /\ In i (sf_inters e) /\ NoDup (delivered_ev h)
+  /\ ~ In (i_id i) (map fst (fst (written_ev_gen skip_final w h)))
+  /\ snd (written_ev_gen skip_final w h) = Closed.
+Proof. exact skip_final_refuted_ex. Qed.
+Print Assumptions C16_skip_final_rule_refuted.
+
+Theorem C16_skip_final_rule_loses_final_replay :
+  delivered_ev h_final_replay = [1; 2; 3; 4; 5] /\ NoDup (delivered_ev h_final_replay)
+  /\ lost_by skip_final h_final_replay = [4; 5]
+  /\ written_ev_gen skip_final vcr_default h_final_replay = (complete [1; 2; 3], Closed)
+  /\ written_ev_gen skip_final har_sanitized h_final_replay = (complete [1; 2; 3], Closed)
+  /\ written_ev vcr_default h_final_replay = (complete [1; 2; 3; 4; 5], Closed)
+  /\ written_ev har_sanitized h_final_replay = (complete [1; 2; 3; 4; 5], Closed).
+Proof. exact skip_final_loses_final_replay. Qed.
+Print Assumptions C16_skip_final_rule_loses_final_replay.
+
+(* JUnit: the handler reads recorder.label, status and skip_reason - and, through format_failures, the TEXT of the
+   responses of the failure groups stored under the label.  No event attribute makes it crash or pass over a failure;
+   a response text that cannot be decoded does (finding C16-F11) *)
+Theorem C16_junit_all_events_never_crashes_partial : forall h, texts_decodable h = true ->
+  exists s t w, junit_run_ev h = RunningEv s t w [].
+Proof. exact junit_ev_never_crashes. Qed.
+Print Assumptions C16_junit_all_events_never_crashes_partial.
+
+Theorem C16_junit_all_events_never_crashes_refuted : exists h a, junit_run_ev h = Aborted a.
+Proof. exact junit_ev_never_crashes_refuted_ex. Qed.
+Print Assumptions C16_junit_all_events_never_crashes_refuted.
+
+(* the witnesses: a failed check on a response with an unknown charset aborts the run at once; a group stored by a
+   SUCCESS-status event aborts it at the next FAILURE event of the label; the dictionary-level machine of Part 2
+   (C16_junit_never_crashes) does not see the response text and keeps running *)
+Theorem C16_junit_aborts_on_undecodable_failure_text :
+  texts_decodable h_bogus_failure = false /\ junit_run_ev h_bogus_failure = Aborted (AbortText 1)
+  /\ junit_run_ev h_bogus_then_failure = Aborted (AbortText 1)
+  /\ (exists s t w, junit_run (map jevent_of h_bogus_failure) = Running s t w).
+Proof. exact junit_ev_aborts_on_undecodable_text. Qed.
+Print Assumptions C16_junit_aborts_on_undecodable_failure_text.
+
+(* every history, no region: a run that was not aborted has a failure element for every FAILURE-status event *)
+Theorem C16_junit_all_events_failure_is_reported : forall h s t w bad e, junit_run_ev h = RunningEv s t w bad ->
+  In (FScenario e) h -> sf_status e = StFailure -> has_failure (sf_rlabel e) t = true.
+Proof. exact junit_ev_failure_reported. Qed.
+Print Assumptions C16_junit_all_events_failure_is_reported.
+
+Theorem C16_junit_skip_final_would_miss_failure :
+  failure_labels_ev h_final_failure = [2]
+  /\ reported 2 (junit_run_ev h_final_failure) = true
+  /\ reported 2 (junit_run_ev_gen skip_final h_final_failure) = false.
+Proof. exact junit_skip_final_misses_failure. Qed.
+Print Assumptions C16_junit_skip_final_would_miss_failure.
+
+(* the report at process exit (Part 5), over full events *)
+Theorem C16_report_complete_at_exit_all_events_har : forall sanitize preserve h sched,
+  lexited (lrun lconf_report_dir {| w_fmt := HAR; w_sanitize := sanitize; w_preserve := preserve |} (map (cevent_of forward_all) h) sched) = true ->
+  lresult (lrun lconf_report_dir {| w_fmt := HAR; w_sanitize := sanitize; w_preserve := preserve |} (map (cevent_of forward_all) h) sched)
+  = (complete (delivered_ev h), LEnded Closed).
+Proof. exact report_complete_at_exit_ev_har. Qed.
+Print Assumptions C16_report_complete_at_exit_all_events_har.
